@@ -23,6 +23,7 @@ Inductive errno :=
   | EIO | ENOSPC | EACCES                                                    (* injected faults (C18) *)
   | E404            (* memstore's fmt.Errorf("404"), cidlink.Memory's os.ErrNotExist *)
   | EBADLINK        (* cidlink.Memory: "incompatible link type" *)
+  | EUSED           (* storage.PutStream fall-back: "WriteCommitter already used" *)
   | EEMPTYKEY       (* repaired fsstore only: commit("") reports that nothing was committed *)
   | EOTHER.
 
@@ -35,7 +36,11 @@ Inductive op :=
   | OGet (k : key)                      (* storage.Get: a new handle on success *)
   | OGetStream (k : key)                (* storage.GetStream, drained immediately *)
   | OPeek (k : key)                     (* storage.Peek: a new handle on success *)
-  | OHas (k : key).
+  | OHas (k : key)
+  (* a stream kept open across other operations: w, commit := storage.PutStream(store) ... *)
+  | OOpen                               (* a new stream; streams are numbered in the order they are opened *)
+  | OWrite (sid : nat) (h : nat)        (* w.Write(slice h) on stream sid *)
+  | OCommit (sid : nat) (k : key).      (* commit(k) of stream sid *)
 
 Inductive obs :=
   | OUnit | OOk | OErr (e : errno) | OBytes (c : bytes) | OStreamErr (e : errno)
@@ -94,9 +99,11 @@ Definition memory_cfg : mcfg := {| mc_proj := cid_hash; mc_overwrite := true; mc
 Record mem := {
   m_heap : list bytes;         (* buffer id = index *)
   m_bag : list (key * nat);    (* Bag map[string][]byte: key -> id of the stored buffer *)
-  m_hnd : list nat             (* the caller's handles -> buffer ids *)
+  m_hnd : list nat;            (* the caller's handles -> buffer ids *)
+  m_str : list (bytes * bool)  (* open streams: the private bytes.Buffer (Write copies into it), and
+                                  whether the fall-back's commit function was used *)
 }.
-Definition mem_empty : mem := {| m_heap := []; m_bag := []; m_hnd := [] |}.
+Definition mem_empty : mem := {| m_heap := []; m_bag := []; m_hnd := []; m_str := [] |}.
 
 Definition hget (m : mem) (id : nat) : bytes := nth id (m_heap m) [].
 Definition handle_buf (m : mem) (h : nat) : option bytes :=
@@ -104,11 +111,13 @@ Definition handle_buf (m : mem) (h : nat) : option bytes :=
 
 (* make([]byte, len); copy *)
 Definition alloc (m : mem) (c : bytes) : mem * nat :=
-  ({| m_heap := m_heap m ++ [c]; m_bag := m_bag m; m_hnd := m_hnd m |}, length (m_heap m)).
+  ({| m_heap := m_heap m ++ [c]; m_bag := m_bag m; m_hnd := m_hnd m; m_str := m_str m |}, length (m_heap m)).
 Definition add_handle (m : mem) (id : nat) : mem :=
-  {| m_heap := m_heap m; m_bag := m_bag m; m_hnd := m_hnd m ++ [id] |}.
+  {| m_heap := m_heap m; m_bag := m_bag m; m_hnd := m_hnd m ++ [id]; m_str := m_str m |}.
 Definition bind_key (m : mem) (k : key) (id : nat) : mem :=
-  {| m_heap := m_heap m; m_bag := (k, id) :: m_bag m; m_hnd := m_hnd m |}.
+  {| m_heap := m_heap m; m_bag := (k, id) :: m_bag m; m_hnd := m_hnd m; m_str := m_str m |}.
+Definition set_str (m : mem) (l : list (bytes * bool)) : mem :=
+  {| m_heap := m_heap m; m_bag := m_bag m; m_hnd := m_hnd m; m_str := l |}.
 
 Definition mem_put (cfg : mcfg) (m : mem) (k : key) (c : bytes) : mem * obs :=
   match mc_proj cfg k with
@@ -133,7 +142,8 @@ Definition mem_step (cfg : mcfg) (m : mem) (o : op) : mem * obs :=
   | ONew c => let '(m1, id) := alloc m c in (add_handle m1 id, OUnit)
   | OMut h c =>
       match nth_error (m_hnd m) h with
-      | Some id => ({| m_heap := upd (m_heap m) id (go_copy (hget m id) c); m_bag := m_bag m; m_hnd := m_hnd m |}, OUnit)
+      | Some id => ({| m_heap := upd (m_heap m) id (go_copy (hget m id) c); m_bag := m_bag m; m_hnd := m_hnd m;
+                       m_str := m_str m |}, OUnit)
       | None => (m, OBadHandle)
       end
   | OPut k h =>
@@ -186,6 +196,19 @@ Definition mem_step (cfg : mcfg) (m : mem) (o : op) : mem * obs :=
         | Some (Some _) => (m, OBool true)
         end
       else (m, OUnsupported)
+  | OOpen => (set_str m (m_str m ++ [([], false)]), OOk)
+  | OWrite sid h =>
+      match nth_error (m_str m) sid, handle_buf m h with
+      | Some (c, u), Some b => (set_str m (upd (m_str m) sid (c ++ b, u)), OOk)
+      | _, _ => (m, OBadHandle)
+      end
+  | OCommit sid k =>
+      match nth_error (m_str m) sid with
+      | None => (m, OBadHandle)
+      | Some (c, u) =>
+          if mc_storage_api cfg && u then (m, OErr EUSED)      (* funcs.go: "WriteCommitter already used" *)
+          else mem_put cfg (set_str m (upd (m_str m) sid (c, true))) k c
+      end
   end.
 
 Fixpoint mem_run (cfg : mcfg) (m : mem) (ops : list op) : list obs :=
@@ -200,19 +223,22 @@ Fixpoint mem_run (cfg : mcfg) (m : mem) (ops : list op) : list obs :=
    [borrowed] marks slices obtained from Peek: the API forbids writing to them. *)
 Record spec := {
   s_map : list (key * bytes);
-  s_hnd : list (bytes * bool)
+  s_hnd : list (bytes * bool);
+  s_str : list (bytes * bool)    (* open streams: what was written so far, and whether it was committed *)
 }.
-Definition spec_empty : spec := {| s_map := []; s_hnd := [] |}.
+Definition spec_empty : spec := {| s_map := []; s_hnd := []; s_str := [] |}.
 
 Definition s_handle (s : spec) (h : nat) : option bytes :=
   match nth_error (s_hnd s) h with Some (c, _) => Some c | None => None end.
 Definition s_add (s : spec) (c : bytes) (borrowed : bool) : spec :=
-  {| s_map := s_map s; s_hnd := s_hnd s ++ [(c, borrowed)] |}.
+  {| s_map := s_map s; s_hnd := s_hnd s ++ [(c, borrowed)]; s_str := s_str s |}.
 Definition s_put (s : spec) (pk : key) (c : bytes) : spec :=
   match lookup pk (s_map s) with
   | Some _ => s
-  | None => {| s_map := (pk, c) :: s_map s; s_hnd := s_hnd s |}
+  | None => {| s_map := (pk, c) :: s_map s; s_hnd := s_hnd s; s_str := s_str s |}
   end.
+Definition s_set_str (s : spec) (l : list (bytes * bool)) : spec :=
+  {| s_map := s_map s; s_hnd := s_hnd s; s_str := l |}.
 
 (* [full]: the store is reachable through package storage (has / peek / get-stream / put-vec) *)
 Definition spec_step (proj : key -> option key) (full : bool) (s : spec) (o : op) : spec * obs :=
@@ -220,7 +246,7 @@ Definition spec_step (proj : key -> option key) (full : bool) (s : spec) (o : op
   | ONew c => (s_add s c false, OUnit)
   | OMut h c =>
       match nth_error (s_hnd s) h with
-      | Some (old, b) => ({| s_map := s_map s; s_hnd := upd (s_hnd s) h (go_copy old c, b) |}, OUnit)
+      | Some (old, b) => ({| s_map := s_map s; s_hnd := upd (s_hnd s) h (go_copy old c, b); s_str := s_str s |}, OUnit)
       | None => (s, OBadHandle)
       end
   | OPut k h =>
@@ -281,6 +307,22 @@ Definition spec_step (proj : key -> option key) (full : bool) (s : spec) (o : op
                      end
         end
       else (s, OUnsupported)
+  | OOpen => (s_set_str s (s_str s ++ [([], false)]), OOk)
+  | OWrite sid h =>
+      match nth_error (s_str s) sid, s_handle s h with
+      | Some (c, u), Some b => (s_set_str s (upd (s_str s) sid (c ++ b, u)), OOk)
+      | _, _ => (s, OBadHandle)
+      end
+  | OCommit sid k =>
+      match nth_error (s_str s) sid with
+      | None => (s, OBadHandle)
+      | Some (c, u) =>
+          if full && u then (s, OErr EUSED)
+          else match proj k with
+               | Some pk => (s_put (s_set_str s (upd (s_str s) sid (c, true))) pk c, OOk)
+               | None => (s, OPanic)
+               end
+      end
   end.
 
 Fixpoint spec_run (proj : key -> option key) (full : bool) (s : spec) (ops : list op) : list obs :=
@@ -306,6 +348,15 @@ Definition op_ok (proj : key -> option key) (s : spec) (o : op) : bool :=
       | _, _ => false
       end
   | OGet k | OGetStream k | OPeek k | OHas k => match proj k with Some _ => true | None => false end
+  | OOpen => true
+  (* a stream is written and committed by its one owner, committed once, and not written afterwards *)
+  | OWrite sid h =>
+      match nth_error (s_str s) sid, s_handle s h with Some (_, u), Some _ => negb u | _, _ => false end
+  | OCommit sid k =>
+      match nth_error (s_str s) sid, proj k with
+      | Some (c, u), Some pk => negb u && put_consistent s pk c
+      | _, _ => false
+      end
   end.
 
 Fixpoint hist_ok (proj : key -> option key) (full : bool) (s : spec) (ops : list op) : bool :=
